@@ -10,6 +10,13 @@ def calc_ast_hash(a: ast.AST) -> str:
     including the input datasets
     """
 
-    b = bytearray()
-    b.extend(map(ord, ast.dump(a)))
+    dump = ast.dump(a)
+    try:
+        # One byte per character - what has always been hashed (keeps existing hashes stable).
+        b = dump.encode("latin-1")
+    except UnicodeEncodeError:
+        # Characters above U+00FF (a name or a string with, say, CJK characters or an emoji)
+        # do not fit in a byte. The marker keeps these apart from any one-byte-per-character
+        # dump (which always starts with a node name).
+        b = b"\0" + dump.encode("utf-8")
     return hashlib.md5(b).hexdigest()
